@@ -3,6 +3,8 @@ package core
 import (
 	"fmt"
 
+	"github.com/jsightapi/jsight-schema-core/bytes"
+
 	"github.com/jsightapi/jsight-api-core/catalog"
 	"github.com/jsightapi/jsight-api-core/directive"
 	"github.com/jsightapi/jsight-api-core/jerr"
@@ -193,11 +195,25 @@ func (core *JApiCore) setCurrentDirective(keyword string, keywordCoords directiv
 		return core.japiError(fmt.Sprintf("%s %q", jerr.UnknownDirective, keyword), keywordCoords.Begin())
 	}
 
+	// The banned directives are refused as soon as they are met, so it doesn't
+	// matter where they are written (i.e. in the body of a MACRO which is never
+	// pasted) or whether they reach the catalog at all (MACRO, PASTE).
+	if je := core.checkDirectiveIsNotBanned(de, keywordCoords.Begin()); je != nil {
+		return je
+	}
+
 	d := directive.NewWithCallStack(de, keywordCoords, core.scannersStack.ToDirectiveIncludeTracer())
 	d.Keyword = keyword
 
 	core.currentDirective = d
 
+	return nil
+}
+
+func (core *JApiCore) checkDirectiveIsNotBanned(de directive.Enumeration, i bytes.Index) *jerr.JApiError {
+	if _, ok := core.bannedDirectives[de]; ok {
+		return core.japiError(fmt.Sprintf("%s (%s)", jerr.DirectiveNotAllowed, de.String()), i)
+	}
 	return nil
 }
 
